@@ -34,6 +34,7 @@ type recorder struct {
 	buf    bytes.Buffer
 	gate   <-chan struct{} // when set, the first Write blocks until the gate is closed (slow client)
 	gated  bool
+	atGate chan struct{} // closed when the handler has reached the gate
 }
 
 func (w *recorder) Header() http.Header { return w.h }
@@ -48,6 +49,9 @@ func (w *recorder) Write(p []byte) (int, error) {
 	}
 	if w.gate != nil && !w.gated {
 		w.gated = true
+		if w.atGate != nil {
+			close(w.atGate)
+		}
 		<-w.gate
 	}
 	return w.buf.Write(p)
@@ -65,6 +69,7 @@ const (
 
 // Req is an in-flight request.
 type Req struct {
+	AtGate  chan struct{} // StartGated: closed when the handler blocks in its first body Write
 	URL     string
 	R       *http.Request
 	Resp    *Resp
@@ -223,12 +228,12 @@ func StartGated(h Handler, rawURL string, onEvent func(point string), gate <-cha
 		panic(err)
 	}
 	r := &http.Request{Method: http.MethodGet, URL: u, Header: http.Header{}}
-	q := &Req{URL: rawURL, R: r, onEvent: onEvent}
+	q := &Req{URL: rawURL, R: r, onEvent: onEvent, AtGate: make(chan struct{})}
 	q.cond = sync.NewCond(&q.mu)
 	reqs.Store(r, q)
 	q.CallSeq = Stamp()
 	go func() {
-		rec := &recorder{h: http.Header{}, gate: gate}
+		rec := &recorder{h: http.Header{}, gate: gate, atGate: q.AtGate}
 		resp := &Resp{}
 		defer func() {
 			if p := recover(); p != nil {
